@@ -89,7 +89,7 @@ fn server_case<M: World>(report: &Report, ctr: &Ctr, user: &str, key: &[u8; 40],
 }
 
 fn module<M: World>(report: &Report, ctr: &Ctr, tier: Tier, seed: u64) {
-    let users: Vec<&str> = vec!["A", "alice", "0123456789ABCDEF", "A:", " ", "~~~~", "bob ", " lead", "a  b", "pass|zone", "@a[z`{~", "0123456789abcde", "o'brien\"\\"];
+    let users: Vec<&str> = vec!["A", "alice", "0123456789ABCDEF", "A:", " ", "~~~~", "bob ", " lead", "a  b", "pass|zone", "@a[z`{~", "0123456789abcde", "o'brien\"\\", "account{1}xy", "{|}~{|}~{|}~{|}~", "abcdefg{hijklmn|"];
     let mut keys = key40s(seed, tier.pick(3, 9));
     keys.push(rotating_key(77));
     let jobs: Vec<(usize, usize)> = (0..users.len()).flat_map(|u| (0..keys.len()).map(move |k| (u, k))).collect();
@@ -244,7 +244,7 @@ pub fn run(tier: Tier, seed: u64) -> i32 {
     report.set("transitions", json!(total));
     report.set("traces_validated_against_impl", json!(total));
     report.sample("case", json!({"module": "wrath", "username": "A", "client_seed": "0xDEADBEEF", "server_seed": "0x01020304", "variation": "swapped-seeds", "expected": "Err carrying presented proof and SHA1(U|0|client|server|K)"}));
-    report.space("3 modules x 13 usernames x session keys x 121 seed pairs; server's own seed scripted through the RNG seam and read back through seed()");
+    report.space("3 modules x 16 usernames x session keys x 121 seed pairs; server's own seed scripted through the RNG seam and read back through seed()");
     report.assume("usernames and session keys come from alphabets");
     report.set("exhaustive", json!(false));
     report.cap_hit("usernames and session keys come from alphabets; the seed-pair and deviation dimensions are closed completely");
